@@ -122,6 +122,9 @@ func vxApplyLog(log []vxFSOp, n int, syncEnabled bool) *vxFS {
 			if f == nil {
 				continue
 			}
+			if len(op.data) == 0 {
+				continue // a zero-length write changes nothing, not even the size
+			}
 			data := op.data
 			last := i == n-1
 			if !synced(i) {
